@@ -575,6 +575,15 @@ theorem embedded_default_repaired :
     Spec.Bind.specBindN embeddedType embeddedReq = .ok [.one (.i 5)] := by
   decide
 
+set_option maxRecDepth 100000 in
+/-- … and since the repair, types with promoted embedded structs are INSIDE `nested_bind_refines_spec_partial` (its
+hypothesis `ForestWF` no longer excludes them; the first version of the proof had to): the embedded example is
+well-formed and outside every known-finding class, so the refinement theorem speaks about it. -/
+theorem embedded_types_inside_refinement :
+    ForestWF embeddedType ∧ NoClassB embeddedReq.seen embeddedType ∧
+    (bindN embeddedType embeddedReq).1 = Spec.Bind.specBindN embeddedType embeddedReq := by
+  decide
+
 /-- **Binding the same request twice gives the same result**, whatever the state of its body: the second bind sees
 the request as the first one left it (`preBindBody` calls `Request.Body()`, which copies a body stream into the
 request buffer). -/
